@@ -87,6 +87,11 @@ impl Interpreter {
     fn executer_assignment(config: &SmartCalcConfig, session: &Session, variable: Rc<VariableInfo>, expression: Rc<SmartCalcAstType>) -> Result<Rc<SmartCalcAstType>, String> {
         let computed  = Interpreter::execute_ast(config, session, expression)?;
         *variable.data.borrow_mut() = computed.clone();
+
+        let is_new = !session.variables.borrow().values().any(|item| Rc::ptr_eq(item, &variable));
+        if is_new {
+            session.add_variable(variable);
+        }
         Ok(computed)
     }
     
